@@ -81,6 +81,22 @@ def check_pairs(T, tag, A, vals, vecs, spectrum, k, which, orthonormal):
         T.true(f"{tag}:selection[{which}]", [ok])
 
 
+def check_extreme(T, tag, val, spectrum, which):
+    """a single returned value: it is an eigenvalue and no eigenvalue has larger (LM) / smaller (SM) magnitude"""
+    if T.sym:
+        member = None
+        for mu in spectrum:
+            e = (_it(T, val) == _it(T, mu))
+            member = e if member is None else (member | e)
+        lam = _abs2(T, val)
+        T.true(f"{tag}: is an eigenvalue of extreme magnitude", [member] + [(lam >= _abs2(T, mu)) if which == "LM" else (lam <= _abs2(T, mu)) for mu in spectrum])
+    else:
+        sp = np.array([complex(x) for x in spectrum])
+        v = complex(np.asarray(val).reshape(-1)[0])
+        ext = np.abs(sp).max() if which == "LM" else np.abs(sp).min()
+        T.true(f"{tag}: is an eigenvalue of extreme magnitude", [bool(np.min(np.abs(sp - v)) <= 1e-8 * (1 + abs(v)) and abs(abs(v) - ext) <= 1e-8 * (1 + ext))])
+
+
 def _guard(T, tag, thunk):
     from symx.core import Inconclusive, PathAbort
     from symx.harness import CaseTimeout
@@ -124,6 +140,12 @@ def case_eigh(T, n, ks, algs, complex_=False):
                     check_pairs(T, tag, A, vals, vecs, w, k, which, True)
 
                 _guard(T, tag, run)
+        if an == "Eigh":
+            _guard(T, "eigmin(Eigh)", lambda: check_extreme(T, "eigmin(Eigh)", E_.eigmin(Aop, alg), w, "SM"))
+            _guard(T, "eigmax(Eigh)", lambda: check_extreme(T, "eigmax(Eigh)", E_.eigmax(Aop, alg), w, "LM"))
+        else:
+            _guard(T, "eigmin(Auto)", lambda: check_extreme(T, "eigmin(Auto)", E_.eigmin(Aop, alg), w, "SM"))
+            _guard(T, "eigmin()", lambda: check_extreme(T, "eigmin()", E_.eigmin(Aop), w, "SM"))
 
 
 def case_eig_degenerate_selfadjoint(T, alg):
